@@ -324,7 +324,7 @@ def parse_youtube_url(url, fix_common_mistakes=True):
             return YoutubeVideo(id=v, playlist=list_query)
 
     # Typical video url
-    if path == "/watch":
+    if path.rstrip("/") == "/watch":
         mv = QUERY_V_RE.search(query)
 
         if mv:
